@@ -151,3 +151,74 @@ Lemma comprehension_local r y body x it cond rest v :
   eval r (EComp body x it cond) = Ok v ->
   exec_block r (SAssign y (EComp body x it cond) :: rest) = exec_block (assign y v r) rest.
 Proof. intros H. rewrite exec_block_cons, exec_assign, H. reflexivity. Qed.
+
+(* ---------- fourth group: unfolding lemmas ---------- *)
+Definition attr_of (o : val) (n : string) : res val :=
+  match o with
+  | VR _ f => match rget n f with Some v => Ok v | None => Err (Raise "AttributeError") end
+  | _ => rerr
+  end.
+Lemma eval_attr r e n : eval r (EAttr e n) = match eval r e with Ok o => attr_of o n | Err z => Err z end.
+Proof. cbn [eval]. unfold op_attr. destruct (eval r e) as [[]|]; reflexivity. Qed.
+
+Lemma exec_continue r : exec r SContinue = Ok (r, Some CONT).
+Proof. reflexivity. Qed.
+Lemma exec_forc r x it body :
+  exec r (SForC x it body) =
+  match eval r it with
+  | Ok (VL l) => iter_list_c (fun v r => exec_block (assign x v r) body) l r
+  | Ok _ => rerr
+  | Err z => Err z
+  end.
+Proof. reflexivity. Qed.
+Lemma exec_for2 r x y it body :
+  exec r (SFor2 x y it body) =
+  match eval r it with
+  | Ok itv => match seq_items itv with
+              | Some l => iter_list_c (pair_step (fun a b r => exec_block (assign y b (assign x a r)) body)) l r
+              | None => rerr end
+  | Err z => Err z
+  end.
+Proof. reflexivity. Qed.
+Lemma exec_unpack r xs e : exec r (SUnpack xs e) = st_unpack r xs (eval r e).
+Proof. reflexivity. Qed.
+Fixpoint eval_path (r : env) (p : list (bool * expr)) : res (list (bool * val)) :=
+  match p with
+  | [] => Ok []
+  | (b, k) :: t => match eval r k, eval_path r t with
+                   | Ok kv, Ok rest => Ok ((b, kv) :: rest) | Err z, _ => Err z | _, Err z => Err z end
+  end.
+Lemma exec_setpath r x path e : exec r (SSetPath x path e) = st_setpath r x (eval r e) (eval_path r path).
+Proof.
+  cbn [exec]. f_equal.
+  induction path as [|[b k] t IH]; [reflexivity|]. cbn [eval_path]. rewrite IH. reflexivity.
+Qed.
+Lemma exec_popattr r t x k dflt :
+  exec r (SPopAttr t x k dflt) =
+  st_popattr r t x (eval r k) (match dflt with Some d => match eval r d with Ok v => Ok (Some v) | Err z => Err z end | None => Ok None end).
+Proof. reflexivity. Qed.
+Fixpoint bind_ins (r : env) (l : list (string * expr)) (acc : env) : res env :=
+  match l with
+  | [] => Ok acc
+  | (p, a) :: t => match eval r a with Ok v => bind_ins r t (assign p v acc) | Err z => Err z end
+  end.
+Lemma exec_call r body ins outs :
+  exec r (SCall body ins outs) =
+  match bind_ins r ins [] with
+  | Err z => Err z
+  | Ok r0 => match exec_block r0 body with
+             | Err z => Err z
+             | Ok (r1, _) => copy_back r1 outs r
+             end
+  end.
+Proof.
+  cbn [exec].
+  assert (B : forall l acc, (fix bind (l : list (string * expr)) (acc : env) : res env :=
+               match l with
+               | [] => Ok acc
+               | (p, a) :: t => match eval r a with Ok v => bind t (assign p v acc) | Err z => Err z end
+               end) l acc = bind_ins r l acc).
+  { induction l as [|[p a] t IH]; intros acc; [reflexivity|]. cbn [bind_ins]. destruct (eval r a); [apply IH | reflexivity]. }
+  rewrite B. destruct (bind_ins r ins []) as [r0|]; [|reflexivity].
+  rewrite exec_block_inner. reflexivity.
+Qed.
